@@ -611,7 +611,7 @@ def c17_9(ctx, ss):
                                                 else f"{missi} no longer ignored: trailing comments / spaces between tokens are rejected", 2)
     # framing: optional leading line end, then one or more lines each closed by a line end
     alpha = SymAlphabet()
-    got = ebnf_regex(gf.rule_defs["start"][1], alpha)
+    got = gf.rule_regex("start", alpha)
     n_, l_ = alpha.map.get("T:_NEWLINE"), alpha.map.get("N:line")
     if n_ is None or l_ is None:
         ctx.violation("C17.9", f"{G}:start :: framing", loc, "the start rule no longer consists of lines and line ends")
